@@ -252,7 +252,17 @@ func (self *linkedPairs) Pop() {
 func (self *linkedPairs) Unset(i int) {
 	if self.index != nil {
 		p := self.At(i)
-		delete(self.index, p.hash)
+		/* the index holds the first occurrence of a key: only drop the entry if it is this pair,
+		 * and let a later duplicate take its place */
+		if j, ok := self.index[p.hash]; ok && j == i {
+			delete(self.index, p.hash)
+			for k := i + 1; k < self.size; k++ {
+				if q := self.At(k); q.hash == p.hash && q.Key == p.Key && !q.unset() {
+					self.index[p.hash] = k
+					break
+				}
+			}
+		}
 	}
 	self.set(i, Pair{})
 }
@@ -260,7 +270,10 @@ func (self *linkedPairs) Unset(i int) {
 func (self *linkedPairs) Set(i int, v Pair) {
 	if self.index != nil {
 		h := v.hash
-		self.index[h] = i
+		/* keep the first occurrence of a duplicated key */
+		if j, ok := self.index[h]; !ok || i <= j || self.At(j).Key != v.Key {
+			self.index[h] = i
+		}
 	}
 	self.set(i, v)
 }
@@ -422,6 +435,11 @@ func (self *linkedPairs) Swap(i, j int) {
 
 func (self *linkedPairs) Sort() {
 	sort.Stable(self)
+	/* Swap cannot keep "first occurrence" for duplicated keys: rebuild */
+	if self.index != nil {
+		self.index = nil
+		self.BuildIndex()
+	}
 }
 
 // Compare two strings from the pos d.
